@@ -3,7 +3,7 @@
 //! libFuzzer keeps the input.
 
 use crate::core::*;
-use crate::engine::{load_known, KnownFinding, Prop, Tier};
+use crate::engine::{load_known, KnownFinding, Prop};
 use crate::model::*;
 use crate::props::{c01, c02, c03, c19};
 use std::path::PathBuf;
@@ -59,7 +59,7 @@ pub fn decode_history(data: &[u8]) -> HistCase {
     let spec = b(&mut u) % 96;
     let wmode = b(&mut u) % 3;
     let mut ops = vec![];
-    while !u.is_empty() && ops.len() < 48 {
+    while !u.is_empty() && ops.len() < 24 {
         let k = b(&mut u);
         let op = match k % 8 {
             0 | 1 | 2 => Op::AddEdge(b(&mut u) % 6, b(&mut u) % 6, W(b(&mut u) % 32)),
@@ -90,7 +90,7 @@ pub fn graph_history(data: &[u8]) {
     install_panic_hook();
     let case = decode_history(data);
     report("C01", &case, c01::C01.check(&case));
-    report("C02", &case, c02::C02 { tier: Tier::Quick }.check(&case));
+    report("C02", &case, c02::C02::check_light(&case));
     if case.wmode != 0 {
         report("C03", &case, c03::C03.check(&case));
     }
